@@ -27,6 +27,7 @@ import FianoModel.Uefi.GuidLemmas
 import FianoModel.Uefi.EditTie
 
 namespace Fiano.Uefi.C03
+open EditArith
 open Fiano Fiano.Uefi
 
 /-- **Find reports exactly the matches, each once**: as many volume entries as volumes that satisfy
